@@ -2,12 +2,7 @@
    (Tables/EqOrdCasesGen.v, generated) equal the model's, evaluated by the kernel. *)
 From Verif Require Import EqOrdRun EqOrdDescRun EqOrdCasesGen.
 
-(* which model variant explains the run: (as coded, repaired); descriptors must follow the same variant *)
-Definition variant_ok : bool * bool :=
-  (forallb (dom_pairs_ok false) doms && deqdom_ok false ddom_eq, forallb (dom_pairs_ok true) doms && deqdom_ok true ddom_eq).
-Eval vm_compute in variant_ok.
-
-Theorem cases_match_model : (fst variant_ok || snd variant_ok) = true.
+Theorem cases_match_model : forallb dom_pairs_ok doms && deqdom_ok ddom_eq = true.
 Proof. vm_compute. reflexivity. Qed.
 
 Theorem hash_streams_match_model : forallb dom_streams_ok doms = true.
